@@ -12,7 +12,10 @@ def steps_typeform(case, pick):
     n = case["len"]
     L = replay.instantiate(case["from"], pick)
     if pick([0, 1, 2]) == 0 and L.get("c") not in ("Numpy",) and "p" not in L:
-        L["p"] = {"k": pick(PARAM_MENU)}          # a custom parameter on the top node: must survive Form -> JSON -> Form
+        # one to three custom parameters on the top node: each must survive Form -> JSON -> Form on its own
+        L["p"] = {"k": pick(PARAM_MENU)}
+        for key in ("m", "z")[:pick([0, 1, 2])]:
+            L["p"][key] = pick(PARAM_MENU)
     steps = [{"op": "build", "dst": "a", "layout": L, "want": ["json", "type", "valid", "depth", "form"]},
              {"op": "form_roundtrip", "src": "a", "want": []},
              {"op": "getitem_range", "src": "a", "a": 0, "b": n, "want": ["type"], "tag": "range"},
@@ -36,12 +39,13 @@ def judge_typeform(case, res, steps):
     if "type_exc" in b or "form_exc" in b:
         return "type()/form() raised with parameter k=%s: %s" % (custom, b.get("type_exc") or b.get("form_exc"))
     if custom is not None:
-        try:
-            got = json.loads(b["form"]).get("parameters", {}).get("k", "ABSENT")
-        except Exception as e:
-            return "form JSON not parseable: %s" % e
-        if got != json.loads(custom) or type(got) is not type(json.loads(custom)):
-            return "parameter k=%s reads back as %r from the form's JSON" % (custom, got)
+        for key, text in steps[0]["layout"]["p"].items():
+            try:
+                got = json.loads(b["form"]).get("parameters", {}).get(key, "ABSENT")
+            except Exception as e:
+                return "form JSON not parseable: %s" % e
+            if got != json.loads(text) or type(got) is not type(json.loads(text)):
+                return "parameter %s=%s reads back as %r from the form's JSON" % (key, text, got)
     if "depth_exc" in b:
         return "depth queries raised: " + b["depth_exc"]
     # (for a union whose members differ in depth purelist_depth is "undefined" = -1; minmax_depth is still checked)
